@@ -122,7 +122,7 @@ var c01Objects = []c01Obj{
 		n := rng.Intn(6)
 		budget := 65000
 		for i := 0; i < n; i++ {
-			l := biasedLen(rng, min(budget, 65535))
+			l := biasedLen(rng, max(0, min(budget, 65535)))
 			budget -= l + 4
 			t.Fields = append(t.Fields, rp.Field{ID: uint16(rng.Intn(65536)), Data: rb(rng, l)})
 		}
